@@ -1,4 +1,7 @@
 pub mod c01;
+pub mod c02;
+pub mod c03;
+pub mod c04;
 pub mod c09;
 pub mod c13;
 pub mod common;
@@ -15,6 +18,9 @@ pub struct Prop {
 pub fn all() -> Vec<Prop> {
     vec![
         Prop { id: "C01", level: "exploration", run: c01::run, replay: c01::replay },
+        Prop { id: "C02", level: "exploration", run: c02::run, replay: c02::replay },
+        Prop { id: "C03", level: "exploration", run: c03::run, replay: c03::replay },
+        Prop { id: "C04", level: "exploration", run: c04::run, replay: c04::replay },
         Prop { id: "C09", level: "exploration", run: c09::run, replay: c09::replay },
         Prop { id: "C13", level: "exploration", run: c13::run, replay: c13::replay },
     ]
@@ -31,6 +37,9 @@ pub fn internal(_cmd: &str, _rest: &[String]) -> Option<i32> {
 
 /// Replays every committed `replays/<id>/regress-*.json` before the search.
 pub fn run_regressions(ctx: &Ctx, p: &Prop) {
+    if std::env::var_os("VH_NO_REGRESS").is_some() {
+        return;
+    }
     let dir = format!("{VERIF_ROOT}/replays/{}", p.id);
     let Ok(rd) = std::fs::read_dir(&dir) else { return };
     let mut files: Vec<String> = rd
@@ -55,4 +64,10 @@ pub fn run_regressions(ctx: &Ctx, p: &Prop) {
             }
         }
     }
+}
+
+/// Scheduled part of C03 (hashing-thread interleavings); filled in by the scheduler module.
+pub fn c03_sched_part(_ctx: &Ctx) {}
+pub fn c03_sched_replay(_case: serde_json::Value) -> Result<Outcome, String> {
+    Err("scheduled replay not available".into())
 }
